@@ -5,9 +5,9 @@ from core import alarm, Timeout
 from vyxal.LazyList import LazyList
 from vyxal.helpers import deep_copy
 
-RULE = ("sources: every list of length 0..3 over {0,1,2}; histories: every sequence of <= 2 (quick) / <= 3 (thorough) of the 37 parametrised "
+RULE = ("sources: every list of length 0..3 over {0,1,2}; histories: every sequence of <= 2 (quick) / <= 3 (thorough) of the 44 parametrised "
         "observations (index -4..5, ten slices, len, iteration, truthiness, membership of 0/1/2/5, equality with three lists, count, reversal, "
-        "copy, listify) exhaustively, plus random histories of length <= 12 on lists of length <= 8 over -2..3. Oracle: each answer equals the "
+        "copy, listify, and a copy / an iterator kept across observations: make, index, listify, next, rest) exhaustively, plus random histories of length <= 12 on lists of length <= 8 over -2..3. Oracle: each answer equals the "
         "same observation on the plain Python list (with the documented wrap-around for out-of-range non-negative indices). Correspondence: "
         "the same histories on the Lean lazy-list machine. Non-trivial = distinct (source, history).")
 
@@ -15,7 +15,8 @@ OPS = [["g", i] for i in range(-4, 6)] + \
       [["s", a, b, c] for (a, b, c) in [(None, None, None), (1, None, None), (None, 2, None), (0, 10, None), (-2, None, None),
                                          (None, None, -1), (None, None, 2), (1, 3, None), (2, 0, -1), (-3, -1, None)]] + \
       [["len"], ["iter"], ["bool"]] + [["c", x] for x in (0, 1, 2, 5)] + [["e", 0], ["e", 1], ["e", 2]] + \
-      [["n", 1], ["n", 2]] + [["rev"], ["copy"], ["lst"], ["copyg", 0], ["copyg", -1]]
+      [["n", 1], ["n", 2]] + [["rev"], ["copy"], ["lst"], ["copyg", 0], ["copyg", -1]] + \
+      [["mk"], ["cg", 0], ["cg", 1], ["cl"], ["mi"], ["nx"], ["rest"]]     # a copy / an iterator that is KEPT across observations
 
 
 def canon(v):
@@ -33,8 +34,28 @@ def eq_other(src, k):
     return [list(src), list(src) + [0], []][k]
 
 
-def observe_ll(ll, op, src):
+def observe_ll(ll, op, src, keep):
     k = op[0]
+    if k == "mk":
+        keep["copy"] = deep_copy(ll); return 0
+    if k == "cg":
+        if "copy" not in keep:
+            keep["copy"] = deep_copy(ll)
+        return keep["copy"][op[1]]
+    if k == "cl":
+        if "copy" not in keep:
+            keep["copy"] = deep_copy(ll)
+        return keep["copy"].listify()
+    if k == "mi":
+        keep["it"] = iter(ll); return 0
+    if k == "nx":
+        if "it" not in keep:
+            keep["it"] = iter(ll)
+        return next(keep["it"], "stop")
+    if k == "rest":
+        if "it" not in keep:
+            keep["it"] = iter(ll)
+        return list(keep["it"])
     if k == "g":
         return ll[op[1]]
     if k == "s":
@@ -62,9 +83,23 @@ def observe_ll(ll, op, src):
     raise ValueError(k)
 
 
-def observe_list(l, op, src):
+def observe_list(l, op, src, keep):
     k = op[0]
-    if k in ("g", "copyg"):
+    if k in ("mk", "mi"):
+        if k == "mi":
+            keep["it"] = iter(l)
+        return 0
+    if k == "cl":
+        return list(l)
+    if k == "nx":
+        if "it" not in keep:
+            keep["it"] = iter(l)
+        return next(keep["it"], "stop")
+    if k == "rest":
+        if "it" not in keep:
+            keep["it"] = iter(l)
+        return list(keep["it"])
+    if k in ("g", "copyg", "cg"):
         i = op[1]
         if i >= 0:
             return l[i % len(l)] if l else 0      # documented wrap-around
@@ -91,10 +126,11 @@ def observe_list(l, op, src):
 def run_history(src, ops):
     ll = LazyList(x for x in src)
     out = []
+    keep = {}
     for op in ops:
         try:
             with alarm(2):
-                out.append(canon(observe_ll(ll, op, src)))
+                out.append(canon(observe_ll(ll, op, src, keep)))
         except Timeout:
             out.append("timeout")
         except Exception as ex:  # noqa: BLE001
@@ -104,9 +140,11 @@ def run_history(src, ops):
 
 def want_history(src, ops):
     out = []
+    keep = {}
+    l = list(src)
     for op in ops:
         try:
-            out.append(canon(observe_list(list(src), op, src)))
+            out.append(canon(observe_list(l, op, src, keep)))
         except Exception as ex:  # noqa: BLE001
             out.append("ERR " + type(ex).__name__)
     return out
@@ -128,7 +166,10 @@ ORACLES = {"history": o_history}
 def enc(src, ops):
     def e(x):
         return "N" if x is None else str(x)
-    return " ".join(map(str, src)) + "|" + " ".join(":".join(e(x) for x in op) for op in ops)
+    def m(op):
+        # a kept copy is modelled by the same observations as a fresh one (its answers depend on the source only)
+        return {"mk": ["nop"], "mi": ["nop"], "cl": ["copy"]}.get(op[0], ["copyg", op[1]] if op[0] == "cg" else op)
+    return " ".join(map(str, src)) + "|" + " ".join(":".join(e(x) for x in m(op)) for op in ops)
 
 
 def run(ctx, widen=False):
@@ -150,11 +191,26 @@ def run(ctx, widen=False):
                for _ in range(rng.randint(1, 12))]
         cases.append({"src": src, "ops": ops})
     ctx.bump("random histories", nr)
+    # interleavings of a kept view with forcing observations on the original
+    FORCE = [["len"], ["lst"], ["iter"], ["g", -1], ["g", 5], ["bool"], ["c", 5], ["e", 0], ["rev"], ["copy"]]
+    for _ in range(6000 if thorough else 1200):
+        src = [rng.randint(-2, 3) for _ in range(rng.randint(1, 7))]
+        h = [["g", rng.randint(0, len(src))]] if rng.random() < 0.8 else []
+        view = rng.choice(["copy", "iter"])
+        h.append(["mk"] if view == "copy" else ["mi"])
+        for _ in range(rng.randint(0, 3)):
+            h.append(["cg", rng.randint(0, 2)] if view == "copy" else ["nx"])
+            if rng.random() < 0.6:
+                h.append(rng.choice(FORCE))
+        h.append(["cl"] if view == "copy" else ["rest"])
+        h.append(rng.choice(OPS))
+        cases.append({"src": src, "ops": h})
+    ctx.bump("kept-view interleavings", 6000 if thorough else 1200)
     ctx.check_many("history", cases)
     ctx.exhaustive = True
     ctx.sample({"src": [1, 2, 3], "ops": [["len"], ["g", -1], ["bool"], ["len"]], "answers": run_history([1, 2, 3], [["len"], ["g", -1], ["bool"], ["len"]])})
     # correspondence with the Lean machine (a slice with step 0 raises in Python and is outside the model)
-    sub = [c for c in cases if not any(op[0] == "s" and op[3] == 0 for op in c["ops"])]
+    sub = [c for c in cases if not any((op[0] == "s" and op[3] == 0) or op[0] in ("nx", "rest") for op in c["ops"])]
     if not thorough:
         sub = sub[::7] + sub[-3000:]
     lines = ["ll\t" + enc(c["src"], c["ops"]) for c in sub]
